@@ -29,7 +29,7 @@ MUST = ["requests_around_transaction_id_wrap", "stale_fragment_while_idle", "aut
         "connect_hang_bounded", "silent_exact", "success", "rejected"]
 EXHAUSTIVE = {"quick": True, "thorough": True}
 
-ALPHA = ["drop", "now", "intime", "late", "garbage", "short", "badsum", "exc", "frag2", "frag1", "dup",
+ALPHA = ["drop", "now", "intime", "late", "garbage", "short", "badsum", "exc", "exc9", "frag2", "frag1", "dup",
          "close", "closelate", "senderr", "reset", "unreachlate"]
 SYMS = {"reset": ("reset", 0.0), "unreachlate": None}     # resolved per T in expand()
 CONNECT = ["ok", "refused", "unreach", "hang"]
@@ -40,6 +40,8 @@ def expand(sym, T):
         return ("rxerr", errno.EHOSTUNREACH, 0.5 * T)
     if sym == "reset":
         return ("reset", 0.0)
+    if sym == "exc9":           # exception answer with a code the Modbus table leaves undefined
+        return ("exc", 9)
     return sym
 
 
@@ -248,7 +250,7 @@ def run_shard(spec):
     part = Part()
     mode = spec["mode"]
     if mode == "exhaustive":
-        alpha = [s for s in ALPHA if not (spec["framing"] == "aa55" and s == "exc")]
+        alpha = [s for s in ALPHA if not (spec["framing"] == "aa55" and s in ("exc", "exc9"))]
         scripts = itertools.product(alpha, repeat=spec["R"] + 1)
         for i, script in enumerate(scripts):
             if i % spec["chunks"] != spec["chunk"]:
@@ -380,7 +382,7 @@ def run_shard(spec):
             R = rnd.choice((0, 1, 2, 3, 4))
             T = rnd.choice((1, 1, 2, 0.5, 0.3))
             nreq = rnd.choice((1, 2, 3, 4))
-            alpha = [s for s in ALPHA if not (framing == "aa55" and s == "exc")]
+            alpha = [s for s in ALPHA if not (framing == "aa55" and s in ("exc", "exc9"))]
             script = [rnd.choice(alpha) for _ in range(rnd.randrange(1, (R + 1) * nreq + 2))]
             connect = [rnd.choice(CONNECT + ["ok"] * 4) for _ in range(rnd.randrange(0, 4))] if transport == "tcp" else []
             sc = scenario(transport, framing, rnd.random() < 0.5, T, R, script, connect=connect, nreq=nreq)
